@@ -202,8 +202,19 @@ def seeded_scenarios(ctx, n):
                 ops.append(dict(op='settle', ms=15))
         elif fam == 1:  # unassigned / removed / promiscuous destination
             ops += [dict(op='udp', s=0, v=4), dict(op='bind', s=0, addr='', port=5000)]
-            seq = rng.sample(['plain', 'foreign', 'add', 'rm', 'promisc_on', 'promisc_off'], 4)
+            seq = rng.sample(['plain', 'foreign', 'add', 'rm', 'promisc_on', 'promisc_off', 'net_on', 'net_off', 'net_on', 'net_off'], 5)
+            if 'net_on' in seq and 'net_off' in seq and seq.index('net_off') < seq.index('net_on'):
+                a_, b_ = seq.index('net_off'), seq.index('net_on')
+                seq[a_], seq[b_] = seq[b_], seq[a_]          # a subnet is given up after it was added
             for what in ['plain'] + seq:
+                if what == 'net_on':
+                    ops.append(dict(op='addsubnet', nic=1, prefix='10.1.'))
+                elif what == 'net_off':
+                    ops.append(dict(op='rmsubnet', nic=1, prefix='10.1.'))
+                if what in ('net_on', 'net_off'):
+                    for dst in ('10.1.2.3', '10.1.0.1', '10.2.0.1'):
+                        ops.append(dict(op='inject', kind='udp', v=4, src='10.0.0.9', sport=7, dst=dst, dport=5000, n=rng.randrange(0, 40), seed=rng.randrange(1 << 20)))
+                        ops.append(dict(op='readall'))
                 if what == 'add':
                     ops.append(dict(op='addaddr', nic=1, addr='10.0.0.3'))
                 elif what == 'rm':
@@ -213,6 +224,12 @@ def seeded_scenarios(ctx, n):
                 elif what == 'promisc_off':
                     ops.append(dict(op='promisc', nic=1, on=False))
                 for dst in ('10.0.0.1', '10.0.0.2', '10.0.0.3', '10.0.0.77'):
+                    ops.append(dict(op='inject', kind='udp', v=4, src='10.0.0.9', sport=7, dst=dst, dport=5000, n=rng.randrange(0, 40), seed=rng.randrange(1 << 20)))
+                    ops.append(dict(op='readall'))
+            # always: a subnet is taken over and given up again (owned: delivered to the wildcard socket; given up: to nobody)
+            for step in ('addsubnet', 'rmsubnet', 'addsubnet', 'rmsubnet')[:rng.choice([2, 4])]:
+                ops.append(dict(op=step, nic=1, prefix='10.1.'))
+                for dst in ('10.1.2.3', '10.2.0.1'):
                     ops.append(dict(op='inject', kind='udp', v=4, src='10.0.0.9', sport=7, dst=dst, dport=5000, n=rng.randrange(0, 40), seed=rng.randrange(1 << 20)))
                     ops.append(dict(op='readall'))
         elif fam == 2:  # ipv6 sockets, dual stack
